@@ -264,13 +264,17 @@ class C17(F.PropCheck):
                 cases.append(F.Case('kw_%s_%s%s' % (cmd.decode().replace('/', '-'), w.decode(), '_rs' if rs else ''), evs, ['exhaustive-keyword-bytes']))
         # substitutions in the command segment of the topic (compared exactly, no case folding)
         for (cmd, pay, rs) in ((b'set/on', b'1', False), (b'execute_action', b'toggle', False), (b'execute_action', b'stop', True),
-                               (b'set/closing_percentage', b'50', True), (b'set/tilt', b'50', True)):
+                               (b'set/closing_percentage', b'50', True), (b'set/tilt', b'50', True), (b'set/brightness', b'50', 'BRI')):
             evs = [('SETPFX', [], pfx)]
+            # every proper prefix of the command word, and the word extended
+            for cw in [cmd[:j] for j in range(len(cmd))] + [cmd + x for x in (b'x', b'/', b'\0', b' ', b'/on', cmd[-1:], cmd)] + [b'/' + cmd, cmd.upper(), cmd.title()]:
+                t = pfx + b'/channels/5/' + cw
+                evs.append(('BRI' if rs == 'BRI' else 'RSFB' if rs else 'SETON', [len(t)], t + pay))
             for pos in range(len(cmd)):
                 for x in sorted(set([cmd[pos] ^ 0x20, cmd[pos] | 0x20, cmd[pos] & 0xDF, 0, 0x20, 0x5F, 0x7F, 0xFF, cmd[pos] ^ 1, cmd[pos] ^ 0x80] + list(range(0x40, 0x80)))):
                     t = pfx + b'/channels/5/' + cmd[:pos] + bytes([x]) + cmd[pos + 1:]
-                    evs.append(('RSFB' if rs else 'SETON', [len(t)], t + pay))
-            cases.append(F.Case('cmdseg_%s%s' % (cmd.decode().replace('/', '-'), '_rs' if rs else ''), evs, ['exhaustive-command-bytes']))
+                    evs.append(('BRI' if rs == 'BRI' else 'RSFB' if rs else 'SETON', [len(t)], t + pay))
+            cases.append(F.Case('cmdseg_%s%s' % (cmd.decode().replace('/', '-'), '_bri' if rs == 'BRI' else '_rs' if rs else ''), evs, ['exhaustive-command-bytes']))
         for i in range(0, len(LONG_CHANNELS), 25):
             evs = [('SETPFX', [], pfx)]
             for nn in LONG_CHANNELS[i:i + 25]:
